@@ -143,18 +143,19 @@ def n_onesided(M):
 
 def canonical_from(stored, sides, M):
     """Two-sided spectrum T[0..M-1] in DFT order from a vector stored in `sides`."""
-    v = np.asarray(stored, dtype=float)
+    v = np.asarray(stored)
+    v = v.astype(complex) if np.iscomplexobj(v) else v.astype(float)
     if sides == "twosided":
         assert len(v) == M
         return v.copy()
     if sides == "centerdc":
         assert len(v) == M
-        T = np.empty(M)
+        T = np.empty(M, dtype=v.dtype)
         for j in range(M):
             T[(j - M // 2) % M] = v[j]
         return T
     assert len(v) == n_onesided(M)
-    T = np.zeros(M)
+    T = np.zeros(M, dtype=v.dtype)
     T[0] = v[0]
     for k in range(1, len(v)):
         if M % 2 == 0 and k == M // 2:
@@ -172,7 +173,7 @@ def render(T, sides):
     if sides == "centerdc":
         return np.array([T[(j - M // 2) % M] for j in range(M)])
     n = n_onesided(M)
-    out = np.empty(n)
+    out = np.empty(n, dtype=T.dtype)
     out[0] = T[0]
     for k in range(1, n):
         if M % 2 == 0 and k == M // 2:
